@@ -1553,8 +1553,9 @@ class Bits:
         if _os.environ.get('BITSTRING_VERIF') == '1' and _os.environ.get('BITSTRING_VERIF_TOFILE_CHUNK_BITS'):
             # Verification hook (off unless BITSTRING_VERIF=1): lets a check cross the chunk boundary with small data.
             chunk_size = int(_os.environ['BITSTRING_VERIF_TOFILE_CHUNK_BITS'])
-        for chunk in self.cut(chunk_size):
-            f.write(chunk.tobytes())
+        # Chunks are taken in storage order, whatever the bit numbering mode, so the file equals tobytes().
+        for start in range(0, len(self), chunk_size):
+            f.write(self._absolute_slice(start, min(start + chunk_size, len(self))).tobytes())
 
     def startswith(self, prefix: BitsType, start: Optional[int] = None, end: Optional[int] = None) -> bool:
         """Return whether the current bitstring starts with prefix.
